@@ -464,7 +464,10 @@ def build_screen(self):
     scr = m.UrwidImageScreen(input=ScreenFile(0), output=ScreenFile(1))
     scr._get_input_codes = _input_codes
     self.screen = scr
-    self.fns.update({"i": scr.get_available_raw_input, "w": lambda: scr.write("x"), "f": scr.flush})
+    # resolved on the INSTANCE at call time: whatever `screen.write` etc. is in this version of the
+    # class (the library's synchronized override, or the urwid base method if there is none)
+    self.fns.update({"i": lambda: scr.get_available_raw_input(), "w": lambda: scr.write("x"),
+                     "f": lambda: scr.flush()})
     for v in vars(m.UrwidImageScreen).values():
         f = v
         for _ in range(6):
@@ -669,6 +672,7 @@ class Th(threading.Thread):
                     self.event = sch.term_take(self, c)
                 else:
                     self.call_consumed = True
+                    self.event = "call"
                     try:
                         sch.vprocs[self.pid].probe()
                     except ProbeError:
@@ -690,6 +694,7 @@ class Th(threading.Thread):
                     vp = self.sch.vprocs.get(self.pid)
                 if cmd[0] == "call":
                     self.call_consumed = True
+                    self.event = "call"   # (what the first gate of a synchronized function reports, too)
                     if self.sch.real:
                         if not self.prog:
                             self.call_consumed = False
@@ -1271,6 +1276,22 @@ def start_call_context():
     return out
 
 
+def screen_sync_methods():
+    """methods of `UrwidImageScreen` decorated with `@lock_tty` (AST of widget/_urwid.py)"""
+    import ast
+    import term_image.widget._urwid as W0
+    tree = ast.parse(open(W0.__file__).read())
+    out = []
+    for cls in ast.walk(tree):
+        if isinstance(cls, ast.ClassDef) and cls.name == "UrwidImageScreen":
+            for fn in cls.body:
+                if isinstance(fn, ast.FunctionDef) and any(
+                        (isinstance(d, ast.Name) and d.id == "lock_tty") or
+                        (isinstance(d, ast.Attribute) and d.attr == "lock_tty") for d in fn.decorator_list):
+                    out.append(fn.name)
+    return sorted(out)
+
+
 def facts():
     probe = U0.lock_tty(lambda: None)
     sync_ops = wrapper_ops(probe.__code__)
@@ -1337,7 +1358,7 @@ def facts():
             "ttyLockSites": [f"{n}: {o}" for n, o in tty_lock_sites()],
             "moduleInitOrder": module_init_order(), "lockAliases": lock_aliases(),
             "wrappedMethods": sorted(wrapped_methods), "atForkHooks": atfork,
-            "startCallContext": start_call_context()}
+            "startCallContext": start_call_context(), "screenSyncMethods": screen_sync_methods()}
 
 
 def _keeper():
